@@ -43,7 +43,8 @@ Fixpoint wrunning_max (cur : N) (l : list N) : list N :=
   end.
 Definition wcurve_from_iter (l : list N) : list N := wrunning_max 0 l.
 
-(* wcet::Curve::from_trace: window oldest first; totals are the prefix sums of the window *)
+(* wcet::Curve::from_trace: window most recent first; totals are the costs of the 1, 2, ... most
+   recent jobs (the suffix sums of the trace read so far, at most max_n of them) *)
 Fixpoint prefix_sums (acc : N) (l : list N) : list N :=
   match l with
   | [] => []
@@ -55,12 +56,11 @@ Fixpoint upd_max (d totals : list N) : list N :=
   | [], _ => totals
   | x :: d', g :: gs => N.max x g :: upd_max d' gs
   end.
-Definition lastn {A} (k : nat) (l : list A) : list A := skipn (length l - k) l.
 Fixpoint wfrom_trace_go (k : nat) (cost_of window cs : list N) : list N :=
   match cs with
   | [] => cost_of
   | c :: cs' =>
-      let w := lastn k (window ++ [c]) in
+      let w := firstn k (c :: window) in
       wfrom_trace_go k (upd_max cost_of (prefix_sums 0 w)) w cs'
   end.
 Definition wcurve_from_trace (cs : list N) (max_n : N) : list N :=
